@@ -142,6 +142,7 @@ type nativeBuilder struct {
 	failed  string
 	buildS  float64
 	workDir string
+	missing map[string]bool // entries whose harness file was dropped (not in the native dispatcher)
 }
 
 func (nb *nativeBuilder) build() error {
@@ -160,6 +161,9 @@ func (nb *nativeBuilder) build() error {
 	sb.WriteString("package replaymain\n\nimport (\n\t\"os\"\n\t\"testing\"\n\n\trt \"github.com/bbva/qed/zzverif/rt\"\n")
 	pkgs := map[string]bool{}
 	for _, e := range nb.spec.Entries {
+		if nb.missing[e.Pkg+"."+e.Fn] {
+			continue
+		}
 		pkgs[e.Pkg] = true
 	}
 	var pl []string
@@ -172,6 +176,9 @@ func (nb *nativeBuilder) build() error {
 	}
 	sb.WriteString(")\n\nvar entries = map[string]func(){\n")
 	for _, e := range nb.spec.Entries {
+		if nb.missing[e.Pkg+"."+e.Fn] {
+			continue
+		}
 		fmt.Fprintf(&sb, "\t%q: %s.%s,\n", e.Pkg+"."+e.Fn, alias(e.Pkg), e.Fn)
 	}
 	sb.WriteString("}\n\nfunc TestReplay(t *testing.T) {\n\tf := entries[os.Getenv(\"VERIF_ENTRY\")]\n\tif f == nil {\n\t\tt.Fatal(\"unknown entry\")\n\t}\n\tif len(rt.RunNative(f)) > 0 {\n\t\tt.Fail()\n\t}\n}\n")
@@ -348,7 +355,12 @@ func cmdCheck(args []string) {
 		overlay[filepath.Join(verifDir, k)] = v
 	}
 	var evidenceInconclusive []string
-	prog, _, files, err := loadProgram(overlay, spec.Patterns, "verif")
+	prog, files, dropped, err := loadWithFallback(overlay, spec.Patterns, "verif")
+	for _, d := range dropped {
+		msg := "harness file no longer type-checks against the current tree and was left out: " + d
+		fmt.Println("INCONCLUSIVE:", msg)
+		evidenceInconclusive = append(evidenceInconclusive, msg)
+	}
 	if err != nil {
 		// the harness no longer loads against the current tree: inconclusive, not an alarm
 		fmt.Printf("INCONCLUSIVE: property=%s cannot load harness against current tree: %v\n", id, firstLine(err.Error()))
@@ -356,7 +368,12 @@ func cmdCheck(args []string) {
 		os.Exit(0)
 	}
 	loadS := time.Since(start).Seconds()
-	nb := &nativeBuilder{id: id, spec: spec, files: files}
+	nb := &nativeBuilder{id: id, spec: spec, files: files, missing: map[string]bool{}}
+	for _, e := range spec.Entries {
+		if findFunc(prog, e.Pkg, e.Fn) == nil {
+			nb.missing[e.Pkg+"."+e.Fn] = true
+		}
+	}
 	if !*keep {
 		defer nb.cleanup()
 	}
